@@ -58,6 +58,8 @@ def string_formats(ctx, st):
         # a format some arm names but the documentation does not is judged by the table theorems only
         # (C10S.string_formats_known), not by this oracle: a newly recognised format is not by itself a violation
         want = DOCUMENTED.get(f, "String" if f not in tbl else got[0])
+        # a String newtype that checks the schema's own length bound is not narrower than the schema
+        if got[0] == "String(constrained)" and want == "String" and form == "maxLength": continue
         if got[0] != want:
             fails.append({"format": f, "form": form, "schema": defs[name], "selected": got[0], "documented": want})
     return {"evaluations": n, "disagreements": dis, "fails": fails, "selected": sel}
